@@ -10,6 +10,7 @@ package main
 
 import (
 	"fmt"
+	"os"
 	"go/ast"
 	"go/constant"
 	"go/types"
@@ -127,7 +128,7 @@ func checkC20(w *World, r *Report) {
 	r.Rule("CLI-COVER", "every Msg/Query method has a command (not skipped unless authority gated)", 15)
 	r.Rule("CLI-UNIQUE", "command names and aliases of one service are pairwise distinct", 2)
 	r.Rule("APP-ORDER", "module wired into app_config begin/end/genesis order and linked", 5)
-	r.Rule("CFG-START", "the default node configuration passes the server's start-up validation", 1)
+	r.Rule("CFG-START", "the default node configuration passes the server's start-up validation", 2)
 	r.Rule("PROTO-AMINO", "amino JSON encoding options fit the field they annotate (responses can be rendered)", 12)
 
 	// locate AutoCLIOptions by signature: method returning *autocliv1.ModuleOptions
@@ -341,6 +342,38 @@ func checkCfgStart(w *World, r *Report) {
 			ok = true
 		}
 	}
+	// the custom config only reaches app.toml when a non-empty template accompanies it: server.InterceptConfigsPreRunHandler
+	// ignores customAppConfig when customAppTemplate == "" (cosmos-sdk v0.50.8 server/util.go interceptConfigs)
+	tm := NewTerms(w)
+	nT := 0
+	tm.walkContexts(func() []*ssa.Function {
+		var fs []*ssa.Function
+		for _, fn := range w.Funcs {
+			if p := pkgOf(fn); p != nil && p.Path() == cmdPath {
+				fs = append(fs, fn)
+			}
+		}
+		return fs
+	}(), func(fr *Frame, in ssa.Instruction) {
+		c, isCall := in.(ssa.CallInstruction)
+		if !isCall || !strings.HasSuffix(callKey(c.Common()), "cosmos-sdk/server.InterceptConfigsPreRunHandler") || len(c.Common().Args) < 3 {
+			return
+		}
+		nT++
+		tt := tm.OperandAt(fr, in, c.Common().Args[1])
+		if os.Getenv("VERIF_DEBUG") != "" {
+			fmt.Fprintln(os.Stderr, "CFG-START template", tt.String())
+		}
+		empty := false
+		for _, alt := range tt.Alts() {
+			if alt.Op == "const" && alt.Name == `""` {
+				empty = true
+			}
+		}
+		r.Check(!empty, "CFG-START", "app-template", w.instrPos(in),
+			"the custom app config is handed to the server together with a non-empty config template (so that it is the one written to app.toml)",
+			"the template passed to server.InterceptConfigsPreRunHandler is the empty string: the SDK then ignores the custom app config, `init` writes the stock defaults (minimum-gas-prices = \"\") and `start` with default settings fails its config validation")
+	})
 	r.Check(ok, "CFG-START", "min-gas-prices", where,
 		"the default app config assigns a non-empty minimum gas price, so `start` with default settings passes Config.ValidateBasic",
 		fmt.Sprintf("the app config is serverconfig.DefaultConfig() with MinGasPrices left empty (assignments found: %v): `fundraisingd init` writes minimum-gas-prices = \"\" and `fundraisingd start` fails with \"set min gas price in app.toml or flag or env variable\"", assigned))
